@@ -1035,9 +1035,91 @@ func c07r12(p *model.Prog, r *report.Result, rule string) {
 			}
 			return model.LoadedField(x) == nextF
 		})
+		// "walked to its end" counts only if the walk goes on to the next item solely where the
+		// new packet is strictly after the current one: in every loop of the function that holds
+		// a CompareSeq test, no way leads from the test back to the loop header except over an
+		// edge on which the outcome is 1
+		if atEnd && !strict {
+			for _, g := range append([]*ssa.Function{fn}, chainFns(d)...) {
+				for _, l := range model.Loops(g) {
+					for b := range l.Body {
+						for _, in := range b.Instrs {
+							call, isCall := in.(*ssa.Call)
+							if !isCall || !model.SameFunc(model.CalleeObj(call.Common()), cmp) {
+								continue
+							}
+							// enumerate the function's paths with the test's outcome fixed to "equal"
+							// and to "before": none may pass the test and come back to the loop header
+							var hdrFirst ssa.Instruction
+							for _, hi := range l.Header.Instrs {
+								if _, isPhi := hi.(*ssa.Phi); !isPhi {
+									hdrFirst = hi
+									break
+								}
+							}
+							var back ssa.Instruction
+							for _, outcome := range []int64{0, -1} {
+								oc := outcome
+								ev := &cEval{fn: g, maxVisits: 3, maxPaths: 4096}
+								ev.seed = func(v ssa.Value) (int64, bool) {
+									if v == ssa.Value(call) {
+										return oc, true
+									}
+									return 0, false
+								}
+								ev.observe = func(in2 ssa.Instruction, _ func(ssa.Value) (int64, bool)) string {
+									if in2 == ssa.Instruction(call) {
+										return "C"
+									}
+									if in2 == hdrFirst {
+										return "H"
+									}
+									return ""
+								}
+								ev.run()
+								if ev.undecided != "" {
+									back = call // a loop that keeps going under this outcome
+								}
+								for _, pa := range ev.paths {
+									seenC := false
+									for _, e := range pa.events {
+										if e == "C" {
+											seenC = true
+										} else if e == "H" && seenC {
+											back = call
+										}
+									}
+								}
+							}
+							if back != nil {
+								atEnd = false
+							}
+						}
+					}
+				}
+			}
+		}
 		r.Check(strict || atEnd, rule, fkey(fn, "position", "decided-by-CompareSeq"), p.InstrPos(st), "linked strictly before/after a neighbour, or at the end", "the new packet is linked at a place that no CompareSeq test with the outcome 'equal' excluded decides (a raw comparison of sequence numbers, or a <= / >= test that lets an equal number through): around the 65535 -> 0 wrap a late packet is appended after newer ones, or a duplicate of the last buffered packet is stored twice - the unpacker stalls until the list is full and then delivers frames out of order or twice")
 	})
 	if n < 1 {
 		r.Bad(rule, "floor", "", "no link of the new item found in RtpPacketList.Insert")
 	}
+}
+
+// chainFns: the functions of the calls on a deep instruction's chain and its own function.
+func chainFns(d model.DeepInstr) []*ssa.Function {
+	var out []*ssa.Function
+	seen := map[*ssa.Function]bool{}
+	add := func(f *ssa.Function) {
+		if f != nil && !seen[f] {
+			seen[f] = true
+			out = append(out, f)
+		}
+	}
+	add(d.Fn)
+	for _, c := range d.Chain {
+		add(c.Parent())
+		add(c.Common().StaticCallee())
+	}
+	return out
 }
